@@ -36,8 +36,8 @@ pub fn chain_cfg(tier: Tier) -> gen::ChainCfg {
     cfg
 }
 
-pub fn strategy(tier: Tier) -> BS<Case> {
-    (gen::chain(&chain_cfg(tier)), proptest::collection::vec(layout::layout(tier, false, true), 1..=2)).prop_map(|(chain, layouts)| Case { chain, layouts }).boxed()
+pub fn strategy(tier: Tier, big_holes: bool) -> BS<Case> {
+    (gen::chain(&chain_cfg(tier)), proptest::collection::vec(layout::layout(tier, false, big_holes), 1..=2)).prop_map(|(chain, layouts)| Case { chain, layouts }).boxed()
 }
 
 pub fn check(c: &Case) -> Verdict {
@@ -103,14 +103,16 @@ pub fn check(c: &Case) -> Verdict {
 }
 
 fn run(eng: &Engine, a: &Args) {
-    let n = if a.tier == Tier::Quick { 300 } else { 4000 };
+    // layouts without multi-GiB holes first: a wrong seek then fails fast instead of reading a hole
+    let (n1, n2) = if a.tier == Tier::Quick { (200, 100) } else { (2700, 1300) };
     let tier = a.tier;
-    eng.explore("layout-vs-canonical", scaled(n, a), move || strategy(tier), check);
+    eng.explore("layout-vs-canonical", scaled(n1, a), move || strategy(tier, false), check);
+    eng.explore("layout-vs-canonical-4GiB", scaled(n2, a), move || strategy(tier, true), check);
 }
 
 fn replay(part: &str, case: serde_json::Value) -> Option<Verdict> {
     match part {
-        "layout-vs-canonical" => Some(check(&serde_json::from_value(case).ok()?)),
+        "layout-vs-canonical" | "layout-vs-canonical-4GiB" => Some(check(&serde_json::from_value(case).ok()?)),
         _ => None,
     }
 }
